@@ -83,6 +83,8 @@ Definition render_wt (c : ctx) (w : wterm) : res string :=
       let s := a ++ cmp_text cm ++ b in
       Ok (if wa c then alias_sql c None s alias else s)
   | WExists sq_ => b <- render_subq c (wa c) (subq c) sq_ None ;; Ok ("EXISTS " ++ b)
+  | WValue t alias => a <- render c t ;; Ok (alias_sql c (q c) a alias)
+  | WAtTz f zone alias => a <- render c f ;; Ok (alias_sql c (q c) (a ++ " AT TIME ZONE '" ++ zone ++ "'") alias)
   end.
 
 Definition text_of (r : res string) : string := match r with Ok s => s | Err e => "!" ++ e end.
@@ -114,7 +116,7 @@ Definition djoin (j : qjoin) : string :=
 Definition semi (l : list string) : string := join ";" l.
 
 Definition dump_stmt (s : stmt) : string :=
-  (if s_clickhouse s then "CH" else "Q")
+  (match s_kind s with QGeneric => "Q" | QClickHouse => "CH" | QPostgres => "PG" | QMySQL => "MY" end)
   ++ " FROM[" ++ semi (map dsrc (s_from s)) ++ "]"
   ++ " INS[" ++ dotbl (s_insert s) ++ "]"
   ++ " UPD[" ++ dotbl (s_update s) ++ "]"
@@ -129,7 +131,11 @@ Definition dump_stmt (s : stmt) : string :=
   ++ " ORD[" ++ semi (map (fun p => dT (fst p) ++ match snd p with Some o => " " ++ o | None => "" end) (s_orderbys s)) ++ "]"
   ++ " JOIN[" ++ semi (map djoin (s_joins s)) ++ "]"
   ++ " SET[" ++ semi (map (fun p => dt (fst p) ++ "=" ++ dT (snd p)) (s_updates s)) ++ "]"
-  ++ " LBY[" ++ semi (map dT (s_limit_by s)) ++ "]".
+  ++ " LBY[" ++ semi (map dT (s_limit_by s)) ++ "]"
+  ++ " DON[" ++ semi (map dT (s_distinct_on s)) ++ "]"
+  ++ " RET[" ++ semi (map dT (s_returns s)) ++ "]"
+  ++ " USING[" ++ semi (map (tref_sql str_ctx) (s_using s)) ++ "]"
+  ++ " DUP[" ++ semi (map (fun p => dt (fst p) ++ "=" ++ dT (snd p)) (s_dup_updates s)) ++ "]".
 
 Definition star_names (s : stmt) : list string := map (tref_sql str_ctx) (s_star s).
 Definition same_set (a b : list string) : bool :=
@@ -205,19 +211,27 @@ Definition ca (n : string) : term := TBasic CEq (fa n) one None.
 Definition cc (n : string) : term := TBasic CEq (fc n) one None.
 Definition qa : squery := {| sq_from := [wa]; sq_selects := [fa "k"]; sq_where := None; sq_ns := false |}.
 
-Definition stmt0 (ch : bool) : stmt :=
-  {| s_clickhouse := ch; s_from := [SrcTable wc]; s_insert := None; s_update := None; s_with := [];
+Definition stmt0 (k : qkind) : stmt :=
+  {| s_kind := k; s_from := [SrcTable wc]; s_insert := None; s_update := None; s_with := [];
      s_selects := [WT (fc "y")]; s_columns := []; s_values := []; s_wheres := None; s_prewheres := None;
      s_groupbys := []; s_havings := None; s_orderbys := []; s_joins := []; s_updates := []; s_star := [];
-     s_limit_by := [] |}.
+     s_limit_by := []; s_distinct_on := []; s_returns := []; s_using := []; s_dup_updates := [] |}.
 (* functional update helpers for the witness statements *)
 Definition with_ (s : stmt) f i u w se co va wh pw gb hv ob jn up st lb : stmt :=
-  {| s_clickhouse := s_clickhouse s; s_from := f; s_insert := i; s_update := u; s_with := w; s_selects := se;
+  {| s_kind := s_kind s; s_from := f; s_insert := i; s_update := u; s_with := w; s_selects := se;
      s_columns := co; s_values := va; s_wheres := wh; s_prewheres := pw; s_groupbys := gb; s_havings := hv;
-     s_orderbys := ob; s_joins := jn; s_updates := up; s_star := st; s_limit_by := lb |}.
+     s_orderbys := ob; s_joins := jn; s_updates := up; s_star := st; s_limit_by := lb;
+     s_distinct_on := []; s_returns := []; s_using := []; s_dup_updates := [] |}.
+(* the dialect-only slots *)
+Definition with_x (s : stmt) don ret us du : stmt :=
+  {| s_kind := s_kind s; s_from := s_from s; s_insert := s_insert s; s_update := s_update s; s_with := s_with s;
+     s_selects := s_selects s; s_columns := s_columns s; s_values := s_values s; s_wheres := s_wheres s;
+     s_prewheres := s_prewheres s; s_groupbys := s_groupbys s; s_havings := s_havings s; s_orderbys := s_orderbys s;
+     s_joins := s_joins s; s_updates := s_updates s; s_star := s_star s; s_limit_by := s_limit_by s;
+     s_distinct_on := don; s_returns := ret; s_using := us; s_dup_updates := du |}.
 
-Definition stmt_witness (ch : bool) (sl : slot) : option stmt :=
-  let s := stmt0 ch in
+Definition stmt_witness (k : qkind) (sl : slot) : option stmt :=
+  let s := stmt0 k in
   let mk f i u w se co va wh pw gb hv ob jn up st lb := Some (with_ s f i u w se co va wh pw gb hv ob jn up st lb) in
   let F := s_from s in let SE := s_selects s in
   match sl with
@@ -236,12 +250,16 @@ Definition stmt_witness (ch : bool) (sl : slot) : option stmt :=
   | S__joins => mk F None None [] SE [] [] None None [] None [] [JOn "" (SrcTable wa) (WT (cc "k"))] [] [] []
   | S__updates => mk F None None [] SE [] [] None None [] None [] [] [(fa "u", WT one)] [] []
   | S__select_star_tables => mk F None None [] SE [] [] None None [] None [] [] [] [wa] []
-  | S__limit_by => if ch then mk F None None [] SE [] [] None None [] None [] [] [] [] [WT (fa "x")] else None
+  | S__limit_by => match k with QClickHouse => mk F None None [] SE [] [] None None [] None [] [] [] [] [WT (fa "x")] | _ => None end
+  | S__distinct_on => match k with QClickHouse | QPostgres => Some (with_x s [WT (fa "x")] [] [] []) | _ => None end
+  | S__returns => match k with QPostgres => Some (with_x s [] [WT (fa "x")] [] []) | _ => None end
+  | S__using => match k with QPostgres => Some (with_x s [] [] [wa] []) | _ => None end
+  | S__duplicate_updates => match k with QMySQL => Some (with_x s [] [] [] [(fa "u", WT one)]) | _ => None end
   | _ => None
   end.
 
 Definition join_stmt (j : qjoin) : stmt :=
-  with_ (stmt0 false) [SrcTable wc] None None [] [WT (fc "y")] [] [] None None [] None [] [j] [] [] [].
+  with_ (stmt0 QGeneric) [SrcTable wc] None None [] [WT (fc "y")] [] [] None None [] None [] [j] [] [] [].
 
 Definition witness_for (k : ctor) (sl : slot) : option obj15 :=
   let W w := Some (OW w) in
@@ -249,7 +267,7 @@ Definition witness_for (k : ctor) (sl : slot) : option obj15 :=
   | KField, S_table => W (WT (fa "x"))
   | KStar, S_table => W (WT (TStar (Some wa)))
   | KValue, S_value =>      (* the value of a SET pair: QueryBuilder.set() wraps it in a ValueWrapper *)
-      Some (OS (with_ (stmt0 false) [SrcTable wc] None None [] [WT (fc "y")] [] [] None None [] None [] []
+      Some (OS (with_ (stmt0 QGeneric) [SrcTable wc] None None [] [WT (fc "y")] [] [] None None [] None [] []
                       [(TField "u" None None, WT (fa "x"))] [] []))
   | KNeg, S_term => W (WT (TNeg (fa "x")))
   | KArith, S_left => W (WT (TArith OAdd (fa "x") (fc "n") None))
@@ -288,8 +306,11 @@ Definition witness_for (k : ctor) (sl : slot) : option obj15 :=
   | KAnalytic, S__orderbys => W (WAnalytic "RANK" [] [] [] [(fa "x", Some "DESC")] None)
   | KExtract, S_field => W (WExtract "YEAR" (fa "x") None)
   | KExists, S_container => W (WExists qa)
-  | KQuery, _ => option_map OS (stmt_witness false sl)
-  | KClickHouse, _ => option_map OS (stmt_witness true sl)
+  | KAtTz, S_field => W (WAtTz (fa "x") "UTC" None)
+  | KQuery, _ => option_map OS (stmt_witness QGeneric sl)
+  | KClickHouse, _ => option_map OS (stmt_witness QClickHouse sl)
+  | KPostgres, _ => option_map OS (stmt_witness QPostgres sl)
+  | KMySQL, _ => option_map OS (stmt_witness QMySQL sl)
   | KJoin, S_item => Some (OS (join_stmt (JCross (SrcTable wa))))
   | KJoinOn, S_item => Some (OS (join_stmt (JOn "" (SrcTable wa) (WT (cc "k")))))
   | KJoinOn, S_criterion => Some (OS (join_stmt (JOn "" (SrcTable wc) (WT (ca "k")))))
@@ -300,9 +321,14 @@ Definition witness_for (k : ctor) (sl : slot) : option obj15 :=
 
 Definition all_ctors : list ctor :=
   [KField; KStar; KValue; KLiteral; KParam; KNeg; KArith; KBasic; KCplx; KIn; KBetween; KPeriod; KBitAnd; KIsNull; KNotNull;
-   KNot; KAll; KEmpty; KCase; KFunc; KTuple; KArray; KNested; KAgg; KAnalytic; KExtract; KExists; KQuery; KClickHouse; KJoin;
-   KJoinOn; KJoinUsing].
-Definition all_pairs : list (ctor * slot) := flat_map (fun k => map (pair k) (child_slots k)) all_ctors.
+   KNot; KAll; KEmpty; KCase; KFunc; KTuple; KArray; KNested; KAgg; KAnalytic; KExtract; KExists; KAtTz; KQuery; KClickHouse;
+   KPostgres; KMySQL; KJoin; KJoinOn; KJoinUsing].
+(* extracted, probed and pinned, but without a constructor in this model: set operations and the ON CONFLICT parts *)
+Definition unmodelled_slot (s : slot) : bool :=
+  match s with S__on_conflict_fields | S__on_conflict_do_updates | S__on_conflict_wheres | S__on_conflict_do_update_wheres => true
+             | _ => false end.
+Definition all_pairs : list (ctor * slot) :=
+  flat_map (fun k => map (pair k) (filter (fun s => negb (unmodelled_slot s)) (child_slots k))) all_ctors.
 Definition unvisited_pairs : list (ctor * slot) := filter (fun p => negb (vis (fst p) (snd p))) all_pairs.
 Definition visited_pairs : list (ctor * slot) := filter (fun p => vis (fst p) (snd p)) all_pairs.
 
@@ -315,7 +341,8 @@ Definition witness_differs (p : ctor * slot) : bool :=
 (* the witness of a visited slot: same rendering -- except where visiting means calling a method that does not exist *)
 Definition raising_pair (p : ctor * slot) : bool :=
   match p with
-  | (KQuery, S__with) | (KClickHouse, S__with) => c_with_by_call tcfg && negb (c_with_ok tcfg)
+  | (KQuery, S__with) | (KClickHouse, S__with) | (KPostgres, S__with) | (KMySQL, S__with) =>
+      c_with_by_call tcfg && negb (c_with_ok tcfg)
   | (KJoin, S_item) => match c_src_mode tcfg KJoin with MCall => negb (c_item_ok tcfg) | _ => false end
   | _ => false
   end.
@@ -337,6 +364,18 @@ Definition expected_visited : list (ctor * slot) :=
    (KNeg, S_term); (KIn, S_container); (KBetween, S_start); (KBetween, S_end); (KPeriod, S_term); (KPeriod, S_start);
    (KPeriod, S_end); (KAll, S_term); (KAgg, S__filters); (KAnalytic, S__filters); (KAnalytic, S__partition);
    (KAnalytic, S__orderbys); (KExtract, S_field); (KExists, S_container); (KQuery, S__updates); (KClickHouse, S__updates);
+   (* visited since 1c7b7d2, 2459d05, 842179f, 0399ee8, e9a97c9, 1465503 (and the dialect builders' inherited slots) *)
+   (KValue, S_value); (KAtTz, S_field); (KClickHouse, S__distinct_on); (KPostgres, S__from); (KPostgres,
+   S__insert_table); (KPostgres, S__update_table); (KPostgres, S__with); (KPostgres, S__selects); (KPostgres,
+   S__columns); (KPostgres, S__values); (KPostgres, S__wheres); (KPostgres, S__prewheres); (KPostgres, S__groupbys);
+   (KPostgres, S__havings); (KPostgres, S__orderbys); (KPostgres, S__joins); (KPostgres, S__updates); (KPostgres,
+   S__select_star_tables); (KPostgres, S__distinct_on); (KPostgres, S__returns); (KPostgres, S__on_conflict_fields);
+   (KPostgres, S__on_conflict_do_updates); (KPostgres, S__on_conflict_wheres); (KPostgres,
+   S__on_conflict_do_update_wheres); (KMySQL, S__from); (KMySQL, S__insert_table); (KMySQL, S__update_table); (KMySQL,
+   S__with); (KMySQL, S__selects); (KMySQL, S__columns); (KMySQL, S__values); (KMySQL, S__wheres); (KMySQL,
+   S__prewheres); (KMySQL, S__groupbys); (KMySQL, S__havings); (KMySQL, S__orderbys); (KMySQL, S__joins); (KMySQL,
+   S__updates); (KMySQL, S__select_star_tables); (KMySQL, S__duplicate_updates); (KSetOp, S_base_query); (KSetOp,
+   S__set_operation); (KSetOp, S__orderbys);
    (KQuery, S__from); (KQuery, S__insert_table); (KQuery, S__update_table); (KQuery, S__with); (KQuery, S__selects);
    (KQuery, S__columns); (KQuery, S__values); (KQuery, S__wheres); (KQuery, S__prewheres); (KQuery, S__groupbys);
    (KQuery, S__havings); (KQuery, S__orderbys); (KQuery, S__joins); (KQuery, S__select_star_tables);
@@ -347,3 +386,17 @@ Definition expected_visited : list (ctor * slot) :=
    (KJoin, S_item); (KJoinOn, S_item); (KJoinOn, S_criterion); (KJoinUsing, S_item); (KJoinUsing, S_fields)].
 Definition pair_eqb (a b : ctor * slot) : bool := Nat.eqb (ctor_id (fst a)) (ctor_id (fst b)) && slot_eqb (snd a) (snd b).
 Definition show_pair (p : ctor * slot) : string := ctor_class (fst p) ++ "." ++ slot_attr (snd p).
+
+(* ---- candidates for a refutation: every slot witness plus the sub-query / WITH shapes ---- *)
+Definition sub_from : stmt :=
+  with_ (stmt0 QGeneric) [SrcSub qa (Some "sq")] None None [] [WT (fc "y")] [] [] None None [] None [] [] [] [] [].
+Definition sub_join : stmt := join_stmt (JOn "" (SrcSub qa (Some "j0")) (WT (cc "k"))).
+Definition sub_cross : stmt := join_stmt (JCross (SrcSub qa (Some "cj"))).
+Definition with_stmt : stmt :=
+  with_ (stmt0 QGeneric) [SrcTable wa] None None [("w", qa)] [WT (fa "x")] [] [] None None [] None [] [JCross (SrcTable wa)] [] [] [].
+Definition candidates : list obj15 :=
+  flat_map (fun p => match witness_for (fst p) (snd p) with Some o => [o] | None => [] end) all_pairs
+  ++ [OS sub_from; OS sub_join; OS sub_cross; OS with_stmt].
+(* inside the scope of the full statement (no TSub leaf over a; dialect-only slots empty elsewhere) *)
+Definition obj_ok (o : obj15) : bool := match o with OW w => sf_wt wa w | OS s => wf_stmt s && sf_stmt wa s end.
+Definition refuting (o : obj15) : bool := obj_ok o && negb (String.eqb (rep_show wa wb o) (subst_show wa wb o)).
